@@ -392,18 +392,27 @@ fn run_history(c: &mut Case, s: &Schema, cols: &[Vec<LValue>], sizes: &[usize]) 
                     let off = c.tape.below(bin.len());
                     let len = c.tape.below(bin.len() - off + 1);
                     c.class("op:from_binary-sliced");
-                    (bin.slice(off, len), smap[off..off + len].to_vec())
+                    let part = bin.slice(off, len);
+                    // the unsliced array must not stay behind as a second owner of the values buffer
+                    drop(bin);
+                    (part, smap[off..off + len].to_vec())
                 } else {
                     c.class("op:from_binary");
                     (bin, smap.clone())
                 };
-                let keep = bin.clone();
+                // from_binary takes the values buffer over without copying when the array is its only owner and copies
+                // it otherwise: both paths are exercised (the expected bytes are copied out first, so that nothing but
+                // `shared` decides the ownership)
+                let expected: Vec<Vec<u8>> = (0..bin.len()).map(|i| bin.value(i).to_vec()).collect();
+                let shared = if c.tape.chance(96) { Some(bin.clone()) } else { None };
+                c.class(if shared.is_some() { "from_binary:shared-buffer" } else if sliced { "from_binary:sole-owner-sliced" } else { "from_binary:sole-owner" });
                 let mut rows = no_panic("from_binary", || conv.from_binary(bin))?;
                 let mut map = map;
-                ensure!(rows.num_rows() == keep.len(), "from_binary:len", "from_binary has {} rows for {}", rows.num_rows(), keep.len());
-                for i in 0..keep.len() {
-                    ensure!(rows.row(i).data() == keep.value(i), "from_binary:bytes", "row {} differs after binary round trip", i);
+                ensure!(rows.num_rows() == expected.len(), "from_binary:len", "from_binary has {} rows for {}", rows.num_rows(), expected.len());
+                for (i, e) in expected.iter().enumerate() {
+                    ensure!(rows.row(i).data() == e.as_slice(), "from_binary:bytes", "row {} differs after binary round trip", i);
                 }
+                drop(shared);
                 if c.tape.chance(64) {
                     if sliced && !c.strict {
                         // known finding: `append` assumes the row buffer ends at the last offset (it zero-fills by
@@ -836,7 +845,7 @@ fn main() {
     .sub(
         Sub::new("rows", 150000, 1500000, sub_rows)
             .tape(256, 12000)
-            .require(&["family:list", "family:listview", "family:fixedlist", "family:struct", "family:map", "family:union", "family:dictionary", "family:runend", "family:float", "family:view", "family:bytes", "has:dictionary", "fields:1", "fields:4", "op:append", "op:push", "op:from_binary", "op:from_binary-sliced", "op:parse", "op:owned", "op:clear+append", "decode:selection", "pair:common-prefix>=10"]),
+            .require(&["family:list", "family:listview", "family:fixedlist", "family:struct", "family:map", "family:union", "family:dictionary", "family:runend", "family:float", "family:view", "family:bytes", "has:dictionary", "fields:1", "fields:4", "op:append", "op:push", "op:from_binary", "op:from_binary-sliced", "from_binary:shared-buffer", "from_binary:sole-owner", "from_binary:sole-owner-sliced", "op:parse", "op:owned", "op:clear+append", "decode:selection", "pair:common-prefix>=10"]),
     )
     .sub(Sub::new("repro_union_dense_ids", 0, 0, |c| tag(repro_union_dense_ids(c), "union-dense-ids")))
     .sub(Sub::new("repro_union_dictionary_child", 0, 0, |c| tag(repro_union_dictionary_child(c), "union-dictionary-child")))
